@@ -14,28 +14,35 @@ pub fn use_def(
 
     for location in rd.keys() {
         let defs = match location.function_location().apply(function).unwrap() {
-            il::RefFunctionLocation::Instruction(_, instruction) => instruction
-                .operation()
-                .scalars_read()
-                .into_iter()
-                .fold(LocationSet::new(), |mut defs, scalar_read| {
-                    rd[location].locations().iter().for_each(|rd| {
-                        rd.function_location()
-                            .apply(function)
-                            .unwrap()
-                            .instruction()
-                            .unwrap()
-                            .operation()
-                            .scalars_written()
-                            .into_iter()
-                            .for_each(|scalar_written| {
-                                if scalar_written == scalar_read {
-                                    defs.insert(rd.clone());
-                                }
-                            })
-                    });
-                    defs
-                }),
+            il::RefFunctionLocation::Instruction(_, instruction) => {
+                // An instruction reads its operands before it writes: consult
+                // the definitions reaching it, not those it leaves behind.
+                let reaching = reaching_definitions::reaching_before(function, &rd, location)?;
+                instruction
+                    .operation()
+                    .scalars_read()
+                    .into_iter()
+                    .flatten()
+                    .fold(LocationSet::new(), |mut defs, scalar_read| {
+                        reaching.locations().iter().for_each(|rd| {
+                            rd.function_location()
+                                .apply(function)
+                                .unwrap()
+                                .instruction()
+                                .unwrap()
+                                .operation()
+                                .scalars_written()
+                                .into_iter()
+                                .flatten()
+                                .for_each(|scalar_written| {
+                                    if scalar_written == scalar_read {
+                                        defs.insert(rd.clone());
+                                    }
+                                })
+                        });
+                        defs
+                    })
+            }
             il::RefFunctionLocation::Edge(edge) => edge
                 .condition()
                 .map(|condition| {
